@@ -592,7 +592,9 @@ func (c *Ctx) contractCall(fr *Frame, ct *Contract, callee *ssa.Function, com *s
 	if t, ok := resT.(*types.Tuple); ok && t.Len() == 0 {
 		res = nil
 	} else {
+		c.viewResult = len(ct.Views) > 0
 		res = c.freshVal(resT, "ret")
+		c.viewResult = false
 	}
 	penv := &CEnv{c: c, st: st, old: old, lookup: mkLookup(names, args, res), pkg: names.pkg, topBefore: topBefore}
 	if len(ct.Ghosts) > 0 {
